@@ -209,7 +209,8 @@ class Tracer:
             prior_ok = (lpn.shape[0] == x.shape[0]) and close(lpn, self.prob.lp_np(x), width_of(samples.x))
         e = {"t": "like", "batch": self.ids.of(x), "n": int(len(x)), "k": self.k,
              "has_prior": bool(has_prior), "prior_ok": bool(prior_ok),
-             "width": effective_width(samples.x), "ns": ns_of(samples.x), "inker": self.in_kernel}
+             "width": (width_of(samples.x) if effective_width(samples.x) == width_of(samples.x) else 0),   # 0: values narrower than their container
+             "ns": ns_of(samples.x), "inker": self.in_kernel}
         if self.file_path is not None:
             e["file"] = read_file_state(self.file_path, self.ids)
             e["file"]["flow_cur"] = flow_currency(e["file"], getattr(getattr(self, "aspire", None), "flow", None))
